@@ -542,6 +542,32 @@ func libEAPMarshal(e *abs.EAP) (b []byte, err error, p *core.Panic) {
 	return
 }
 
+// someAkaPacket: a well-formed EAP-AKA' challenge with its attributes in DESCENDING type order (what another peer sent before)
+var someAkaPacket = func() []byte {
+	body := []byte{50, 1, 0, 0}
+	body = append(body, 24, 1, 0, 1)                                                  // AT_KDF
+	body = append(body, append([]byte{23, 2, 0, 4}, []byte("5G:x")...)...)            // AT_KDF_INPUT
+	body = append(body, append([]byte{11, 5, 0, 0}, make([]byte, 16)...)...)          // AT_MAC
+	body = append(body, append([]byte{2, 5, 0, 0}, []byte("AUTNAUTNAUTNAUTN")...)...) // AT_AUTN
+	body = append(body, append([]byte{1, 5, 0, 0}, []byte("RANDRANDRANDRAND")...)...) // AT_RAND
+	p := append([]byte{1, 99, 0, 0}, body...)
+	p[2], p[3] = byte(len(p)>>8), byte(len(p))
+	return p
+}()
+
+// usedEAP returns the object a receiver decodes into: a new one, or one that already decoded another peer's packet
+func usedEAP(h uint64) *eap.EAP {
+	le := new(eap.EAP)
+	if h%3 == 1 {
+		if le.Unmarshal(append([]byte{}, someAkaPacket...)) == nil {
+			core.GlobalCount("eap_objects_reused_for_a_second_decode")
+		} else {
+			le = new(eap.EAP)
+		}
+	}
+	return le
+}
+
 func libEAPUnmarshal(b []byte) (e *abs.EAP, err error, p *core.Panic) {
 	around(hashBytes(b)+2, func() {
 		if len(b) > 6 {
@@ -554,7 +580,7 @@ func libEAPUnmarshal(b []byte) (e *abs.EAP, err error, p *core.Panic) {
 		}
 	})
 	p = core.Try(func() {
-		le := new(eap.EAP)
+		le := usedEAP(hashBytes(b) >> 3)
 		err = le.Unmarshal(b)
 		if err == nil {
 			e = bridge.ObserveEAP(le)
@@ -605,7 +631,19 @@ func preparsedHeader(b []byte) (*message.IKEHeader, error) {
 	if err != nil {
 		return nil, err
 	}
-	switch hashBytes(b) >> 16 % 3 {
+	switch hashBytes(b) >> 16 % 4 {
+	case 3:
+		// parsed from the socket buffer, which has been reused since (the datagram itself was queued as a copy)
+		rx := append([]byte{}, b...)
+		h2, err := message.ParseHeader(rx)
+		if err != nil {
+			return nil, err
+		}
+		for i := 28; i < len(rx); i++ {
+			rx[i] ^= 0x6b
+		}
+		core.GlobalCount("preparsed_header_from_a_buffer_reused_since")
+		return h2, nil
 	case 1:
 		core.GlobalCount("preparsed_header_from_28_octet_peek")
 		return message.ParseHeader(append([]byte{}, b[:28]...))
